@@ -336,6 +336,33 @@ def check(chk):
         ok = top.count('query.update_context_id(ctx_counter)') == 1 and top.count('ctx = query.get_context()') == 1 and top.count('ctx_counter += len(ctx)') == 1 and \
             top.index('query.update_context_id(ctx_counter)') < top.index('ctx = query.get_context()') < top.index('ctx_counter += len(ctx)')
     chk.judge(ok, 'C37.batch', be, 'each queued statement is renumbered unconditionally (top level of the loop) before its context is taken', 'renumbering of a batch statement is conditional or missing: shared clause objects keep the ids of another statement and two placeholders collide')
+    # two statements built from the same clause objects (the queryset's where / conditional clauses): building the second renumbers the clauses the first one renders,
+    # so the first has to be executed (rendered and bound) before the second is built
+    chk.rule('C37.shared', 'ModelQuerySet.update: the UPDATE is executed before the DELETE that shares its where / conditional clause objects is constructed')
+    mqu = q.func('ModelQuerySet.update')
+    from ..cfg import CFG as _CFG37
+    g37 = _CFG37(mqu)
+    dsn = [n for n in g37.stmt_nodes() if n.kind == 'stmt' and n.ast is not None and any(isinstance(x, ast.Call) and src(x.func) == 'DeleteStatement' for x in ast.walk(n.ast))]
+    exu = [n for n in g37.stmt_nodes() if n.kind == 'stmt' and n.ast is not None and any(isinstance(x, ast.Call) and src(x.func) == 'self._execute' and x.args and src(x.args[0]) == 'us'
+                                                                                         for x in ast.walk(n.ast))]
+    if not dsn or not exu:
+        raise AnalysisError('ModelQuerySet.update: DeleteStatement construction / execution of the UPDATE not found')
+
+    def _reach37(a_, b_):
+        seen_, work_ = set(), [x_ for x_, _l in a_.succ]
+        while work_:
+            n_ = work_.pop()
+            if n_.id in seen_:
+                continue
+            seen_.add(n_.id)
+            if n_ is b_:
+                return True
+            work_.extend(x_ for x_, _l in n_.succ)
+        return False
+    late = [(d_, e_) for d_ in dsn for e_ in exu if _reach37(d_, e_)]
+    chk.judge(not late, 'C37.shared', dsn[0].ast, 'the DELETE for nulled columns is built after the UPDATE was executed',
+              'the DeleteStatement is constructed before self._execute(us): both statements number the same where / condition clause objects, so the UPDATE is rendered with the ids the DELETE gave '
+              'them - `IF "a" = %(2)s AND "b" = %(2)s` - and a condition receives another condition\'s value')
     chk.require('C37.triple', 100)
     chk.require('C37.lists', 12)
 
